@@ -377,6 +377,8 @@ class Calls(SpecRT, Strings, Loops, AnyVals, AbsSeqs):
     def pseudo_getattr(self, v, attr, st, fr):
         if v.cname == 'dict':
             return self.ex.ok(SBuiltin('dict.' + attr, bound=v), st)
+        if v.cname in ('actionlog', 'rounds') and attr == 'append':
+            return self.ex.ok(SBuiltin(v.cname + '.append', bound=v), st)
         return None
 
     def val_binop(self, on, a, b, st, fr, node=None):
@@ -731,6 +733,11 @@ class Calls(SpecRT, Strings, Loops, AnyVals, AbsSeqs):
                 return ex.ok(None, st)
         if isinstance(c, SRef) and c.cname == 'dict':
             return self.dict_setitem(c, i, v, st, fr)
+        hk = ex.hooks.get('setitem')
+        if hk:
+            r = hk(c, i, v, st, fr)
+            if r is not None:
+                return r
         raise Unsupported('setitem on %r' % (c,))
 
     def slice(self, c, lo, hi, stp, st, fr):
